@@ -1,4 +1,5 @@
 """Shared configuration lattices: ellipsoids, projections, angle input types, lattice builders."""
+import copy as _copy
 import math
 
 import numpy as np
@@ -18,6 +19,13 @@ ELLS = {
     'g64_280': gc.Ellipsoid(6.4e6, 280.0), 'g64_320': gc.Ellipsoid(6.4e6, 320.0),
 }
 ELL_AF = {k: (float(v.semimaj), float(v.inversef)) for k, v in ELLS.items()}
+# Published defining values of the shipped ellipsoids (EPSG 7019, 7030, 7003, 7022) and projections (UTM; NSW ISG technical
+# manual).  The oracles use THESE numbers, not the ones stored in the library objects, so a mistyped constant is a
+# difference between the library and the definition instead of being copied into the reference.
+PUBLISHED_ELL = {'grs80': (6378137.0, 298.257222101), 'wgs84': (6378137.0, 298.257223563), 'ans': (6378160.0, 298.25),
+                 'intl24': (6378388.0, 297.0)}
+PUBLISHED_PRJ = {'utm': (500000.0, 10000000.0, 0.9996, 6.0, -177.0), 'isg': (300000.0, 5000000.0, 0.99994, 2.0, -177.0)}
+ELL_AF.update(PUBLISHED_ELL)
 SHIPPED = ['grs80', 'wgs84', 'ans', 'intl24']
 E9 = SHIPPED + ['e63_150', 'e63_400', 'e64_150', 'e64_400', 'e635_275']
 G8 = SHIPPED + ['g63_280', 'g63_320', 'g64_280', 'g64_320']
@@ -43,7 +51,6 @@ PRJS = {
     'p3': gc.Projection(500000, 0, 1.0, 3, 3),
     'p4': gc.Projection(400000, 5000000, 0.9998, 4, 111),
 }
-import copy as _copy
 # projections configured by copying a shipped one and adjusting attributes afterwards (a Projection is a plain attribute
 # holder: anything derived from its attributes at construction time would be stale here)
 _p5 = _copy.copy(gc.utm)
@@ -53,15 +60,19 @@ PRJS['p5'] = _p5
 _p6 = gc.Projection(0, 0, 1, 1, 0)
 _p6.falseeast, _p6.falsenorth, _p6.cmscale, _p6.zonewidth, _p6.initialcm = 250000, 10000000, 1.0, 6, -177
 PRJS['p6'] = _p6
+# a value-equal but distinct copy of the ISG projection (what a deep copy or a pickle round trip of `isg` produces)
+PRJS['isg2'] = _copy.deepcopy(gc.isg)
 PRJ_PAR = {k: (float(v.falseeast), float(v.falsenorth), float(v.cmscale), float(v.zonewidth), float(v.initialcm))
            for k, v in PRJS.items()}
+PRJ_PAR.update(PUBLISHED_PRJ)
+PRJ_PAR['isg2'] = PUBLISHED_PRJ['isg']
 # ISG zone definition (NSW Integrated Survey Grid): zone 'ZZ/s' -> central meridian
 ISG_CM = {541: 139.0, 542: 141.0, 543: 143.0, 551: 145.0, 552: 147.0, 553: 149.0,
           561: 151.0, 562: 153.0, 563: 155.0, 572: 159.0}
 # (ellipsoid, projection) configurations for the TM properties
 TM_CONFIGS = ([(e, 'utm') for e in E9] + [('ans', 'isg'), ('grs80', 'isg')] +
               [('grs80', 'p0'), ('e64_400', 'p0'), ('grs80', 'p1'), ('e63_150', 'p1'), ('intl24', 'p2'), ('e635_275', 'p2'),
-               ('wgs84', 'p3'), ('ans', 'p4'), ('grs80', 'p5'), ('intl24', 'p6')])
+               ('wgs84', 'p3'), ('ans', 'p4'), ('grs80', 'p5'), ('intl24', 'p6'), ('ans', 'isg2')])
 
 
 def n_zones(prj):
@@ -73,8 +84,31 @@ def n_zones(prj):
 def cm_of(prj, zone):
     if prj == 'isg':
         return ISG_CM[int(zone)]
+    if prj == 'isg2':
+        raise KeyError('the zone label of a copy of the ISG projection is not interpreted (see nearest_cm)')
     fe, fn, k0, zw, icm = PRJ_PAR[prj]
     return icm + (int(zone) - 1) * zw
+
+
+def nearest_cm(prj, lon):
+    """central meridian of the layout within half a zone width of lon (independent of any zone numbering)"""
+    fe, fn, k0, zw, icm = PRJ_PAR[prj]
+    return icm + round((lon - icm) / zw) * zw
+
+
+def published_constants_ok():
+    """list of (name, library value, published value) for every shipped ellipsoid / projection constant that differs"""
+    bad = []
+    for n, (a, invf) in PUBLISHED_ELL.items():
+        o = ELLS[n]
+        if (float(o.semimaj), float(o.inversef)) != (a, invf):
+            bad.append((n, [float(o.semimaj), float(o.inversef)], [a, invf]))
+    for n, par in PUBLISHED_PRJ.items():
+        o = PRJS[n]
+        got = (float(o.falseeast), float(o.falsenorth), float(o.cmscale), float(o.zonewidth), float(o.initialcm))
+        if got != par:
+            bad.append((n, list(got), list(par)))
+    return bad
 
 
 # ---- angle input types ----------------------------------------------------------------------
